@@ -58,3 +58,23 @@ def lookup_first_obtained_value(hostname, p1, p2, u1, u2, port2, id1, id2, id3):
         assert "identityfile" not in r
     # the stored configuration is not modified by a lookup
     assert c._config[1]["config"]["identityfile"] == [id1, id2]
+
+
+def lookup_identityfile_repeated_within_a_block(hostname, p1, p2, id1, id2, id3):
+    from paramiko.config import SSHConfig
+    c = SSHConfig()
+    pat0, pat1, pat2 = ["*"], [p1], [p2]
+    c._config.append({"host": pat0, "config": {}})
+    c._config.append({"host": pat1, "config": {"identityfile": [id1]}})
+    c._config.append({"host": pat2, "config": {"identityfile": [id2, id3, id2]}})      # a value repeated inside one block
+    r = c._lookup(hostname)
+    a1 = c._pattern_matches(pat1, hostname)
+    a2 = c._pattern_matches(pat2, hostname)
+    if a1 and a2:
+        # accumulated across blocks without duplicates
+        if id2 == id1:
+            assert r["identityfile"] == ([id1] if id3 == id1 else [id1, id3])
+        elif id3 == id1 or id3 == id2:
+            assert r["identityfile"] == [id1, id2]
+        else:
+            assert r["identityfile"] == [id1, id2, id3]
